@@ -27,6 +27,8 @@ for log in sys.argv[1:]:
             var = {'a': 'j', 'b': 'k'}.get(var, var)          # seventh wave: <prop>_j
         if 'seedout8' in d:
             var = {'a': 'k', 'b': 'l'}.get(var, var)          # eighth wave: <prop>_k
+        if 'seedout9' in d:
+            var = {'a': 'l', 'b': 'm'}.get(var, var)          # ninth wave: <prop>_l
         if 'seedout3' in d:
             var = {'a': 'e', 'b': 'f'}.get(var, var)          # third wave: <prop>_e, <prop>_f
         name = f'{prop}_{var}'
